@@ -10,7 +10,7 @@ Integer glue goes to Lean `Int` (omega-friendly, via pyexpr2lean.Tr); real-value
 import ast
 from fractions import Fraction
 from pyexpr2lean import Gen, Tr, Untranslatable, load, get_def, get_const, find_returns, find_calls
-from gen_c19 import VTr, run_block, lean_def, has, _n, prune
+from gen_c19 import VTr, run_block, lean_def, has, _n, prune, inline_helpers, symexec, subst, _body
 
 M = 'Model.C18'
 HEADER = ('set_option linter.unusedVariables false\nopen Model.C18\n')
@@ -73,15 +73,13 @@ def generate(repo):
 
     def add_hex():
         fn = get_def(sg, 'add_hex')
-        env = {f'{h}.{c}': f'{h}.{c}' for h in ('h1', 'h2') for c in 'qrs'}
-        tr = Tr(env)
-        vals = {}
-        for st in fn.body:
-            if isinstance(st, ast.Assign) and isinstance(st.targets[0], ast.Name):
-                vals[st.targets[0].id] = tr.expr(st.value)
-        (ret,) = find_returns(fn)
-        assert ast.unparse(ret) == 'Hex(q, r, s)'
-        return f'def hexAdd (h1 h2 : Hex) : Hex := ⟨{vals["q"]}, {vals["r"]}, {vals["s"]}⟩'
+        b = _body(fn)
+        env = symexec(b[:-1])
+        ret = subst(b[-1].value, env)
+        assert isinstance(ret, ast.Call) and ast.unparse(ret.func) == 'Hex' and len(ret.args) == 3
+        tr = Tr({f'{h}.{c}': f'{h}.{c}' for h in ('h1', 'h2') for c in 'qrs'})
+        q, r, s_ = [tr.expr(a) for a in ret.args]
+        return f'def hexAdd (h1 h2 : Hex) : Hex := ⟨{q}, {r}, {s_}⟩'
     g.item('add_hex', 'prysm/segmented.py:add_hex', lambda: get_def(sg, 'add_hex'), add_hex,
            f'def hexAdd (h1 h2 : Hex) : Hex := {M}.Hex.add h1 h2')
 
@@ -101,21 +99,37 @@ def generate(repo):
     # ---------------------------------------------------------------- hex_ring
     def hex_ring():
         fn = get_def(sg, 'hex_ring')
-        body = [s for s in fn.body if not (isinstance(s, ast.Expr) and isinstance(s.value, ast.Constant))]
-        a_start, a_tile, a_res, outer, rollloop, ret = body
-        assert ast.unparse(a_tile) == 'tile = start' and ast.unparse(a_res) == 'results = []' and ast.unparse(ret) == 'return results'
-        start = hex_literal(a_start.value, Tr({'radius': 'radius'}))
-        assert isinstance(outer, ast.For) and ast.unparse(outer.iter.func) == 'range' and len(outer.iter.args) == 1
+        body = _body(fn)
+        loops = [st for st in body if isinstance(st, ast.For)]
+        outer = loops[0]
+        pre = symexec(body[:body.index(outer)])
+        start = hex_literal(pre['tile'], Tr({'radius': 'radius'}))
+        assert ast.unparse(pre['results']) == '[]'
+        assert ast.unparse(outer.iter.func) == 'range' and len(outer.iter.args) == 1
         sides = outer.iter.args[0]
         assert isinstance(sides, ast.Constant) and isinstance(sides.value, int)
         ivar = outer.target.id
         (inner,) = outer.body
         assert isinstance(inner, ast.For) and ast.unparse(inner.iter.func) == 'range' and len(inner.iter.args) == 1
         inner_n = Tr({'radius': 'radius'}).expr(inner.iter.args[0])
-        assert [ast.unparse(s) for s in inner.body] == ['results.append(tile)', f'tile = hex_neighbor(tile, {ivar})']
-        assert isinstance(rollloop, ast.For) and ast.unparse(rollloop.iter.func) == 'range'
-        roll_n = Tr({'radius': 'radius'}).expr(rollloop.iter.args[0])
-        assert [ast.unparse(s) for s in rollloop.body] == ['results.append(results.pop(0))']
+        assert [ast.unparse(s_) for s_ in inner.body] == ['results.append(tile)', f'tile = hex_neighbor(tile, {ivar})']
+        (ret,) = find_returns(fn)
+        if len(loops) == 2:
+            rollloop = loops[1]          # for _ in range(k): results.append(results.pop(0))
+            assert ast.unparse(rollloop.iter.func) == 'range' and [ast.unparse(s_) for s_ in rollloop.body] == ['results.append(results.pop(0))']
+            assert ast.unparse(ret) == 'results'
+            roll_e = rollloop.iter.args[0]
+        else:                            # results[k:] + results[:k]
+            assert len(loops) == 1
+            post = symexec(body[body.index(outer) + 1:-1])
+            r_ = subst(ret, post)
+            assert isinstance(r_, ast.BinOp) and isinstance(r_.op, ast.Add)
+            lo, hi = r_.left, r_.right
+            assert ast.unparse(lo.value) == 'results' and ast.unparse(hi.value) == 'results' and isinstance(lo.slice, ast.Slice) \
+                and isinstance(hi.slice, ast.Slice) and lo.slice.upper is None and hi.slice.lower is None and lo.slice.step is None \
+                and hi.slice.step is None and ast.dump(lo.slice.lower) == ast.dump(hi.slice.upper)
+            roll_e = lo.slice.lower
+        roll_n = Tr({'radius': 'radius'}).expr(roll_e)
         return (f'def hexRingStart (radius : Int) : Hex := {start}\n'
                 f'def hexRingSides : Nat := {sides.value}\n'
                 f'def hexRingSideLen (radius : Int) : Int := {inner_n}\n'
@@ -160,7 +174,7 @@ def generate(repo):
 
     # ---------------------------------------------------------------- _local_window
     def local_window():
-        fn = get_def(sg, '_local_window')
+        fn = inline_helpers(get_def(sg, '_local_window'), sg)
         (ret,) = find_returns(fn)
         assert has(ast.unparse(ret), 'slice(offset_y, upper_y), slice(offset_x, upper_x)')
         out = []
@@ -274,10 +288,8 @@ def generate(repo):
         out.append(f'def circle {PVARS} (radius r : K) : Prop := {prop(tr, ret)}')
         fn = get_def(ge, 'annulus')
         tr = VTr({'rin': ('rin', 's'), 'rout': ('rout', 's'), 'r': ('r', 's')})
-        for st in fn.body:
-            if isinstance(st, ast.Assign):
-                tr.env[st.targets[0].id] = (prop(tr, st.value), 'p')
-        (ret,) = find_returns(fn)
+        b = _body(fn)
+        ret = subst(b[-1].value, symexec(b[:-1]))
         out.append(f'def annulus {PVARS} (rin rout r : K) : Prop := {prop(tr, ret)}')
         fn = get_def(ge, 'rectangle')
         tr = VTr({'width': ('width', 's'), 'height': ('height', 's'), 'x': ('x', 's'), 'y': ('y', 's')})
@@ -300,15 +312,17 @@ def generate(repo):
         fn = get_def(ge, 'spider')
         src = ast.unparse(fn)
         assert has(src, 'width = width / 2', 'rotation = np.radians(360 / vanes)', 'for multiple in range(vanes)',
-                   'offset = rotation * multiple', 'xxx, yyy = polar_to_cart(r, pp)', 'mask |= mask_', 'return ~mask',
+                   'offset = rotation * multiple', 'xxx, yyy = polar_to_cart(r, pp)', 'return ~mask',
                    'r, p = cart_to_polar(x - x0, y - y0)', 'p = p - rotation')
-        tr = VTr({'width': ('width', 's'), 'xxx': ('x', 's'), 'yyy': ('y', 's')},
-                 funcs={'abs': lambda a, kw: (f'(absK {a[0][0]})', 's')})
+        tr = VTr({'width': ('width', 's'), 'xxx': ('x', 's'), 'yyy': ('y', 's')})
         wst = [s for s in fn.body if isinstance(s, ast.Assign) and ast.unparse(s.targets[0]) == 'width'][0]
         lets, _ = run_block([wst], tr)
         loop = [s for s in fn.body if isinstance(s, ast.For)][0]
-        mk = [s for s in loop.body if isinstance(s, ast.Assign) and ast.unparse(s.targets[0]) == 'mask_'][0]
-        out.append(lean_def('vane', '(absK : K → K) (width x y : K)', 'Prop', lets, prop(tr, mk.value), extra=PVARS + ' '))
+        # what is OR-ed into `mask` per vane, whether through a temporary or directly
+        acc = symexec(loop.body).get('mask')
+        assert isinstance(acc, ast.BinOp) and isinstance(acc.op, ast.BitOr) and ast.unparse(acc.left) == 'mask'
+        vane_ast = acc.right
+        out.append(lean_def('vane', '(absK : K → K) (width x y : K)', 'Prop', lets, prop(tr, vane_ast), extra=PVARS + ' '))
         return '\n'.join(out)
     g.item('geometry.primitives', 'prysm/geometry.py:circle,annulus,rectangle,rotated_ellipse,spider',
            lambda: ast.Module(body=[get_def(ge, n) for n in ('circle', 'annulus', 'rectangle', 'rotated_ellipse', 'spider')], type_ignores=[]),
@@ -372,11 +386,14 @@ def generate(repo):
     # ---------------------------------------------------------------- polygon vertices of the hexagon, both orientations
     def vertices():
         fn = get_def(ge, '_generate_vertices')
-        src = ast.unparse(fn)
-        assert has(src, 'angle = 2 * truenp.pi / sides', 'rotation = truenp.radians(rotation)', 'x0, y0 = center',
-                   'points = truenp.arange(sides, dtype=config.precision)',
-                   'x = radius * truenp.sin(points * angle + rotation) + x0',
-                   'y = radius * truenp.cos(points * angle + rotation) + y0', 'return truenp.stack((x, y), axis=1)')
+        b = _body(fn)
+        env = symexec(b[:-1])
+        ret = subst(b[-1].value, env)
+        assert isinstance(ret, ast.Call) and ast.unparse(ret.func) in ('truenp.stack', 'np.stack') and _n(ast.unparse(ret.keywords[0].value)) == '1'
+        vx, vy = ret.args[0].elts
+        ang = 'truenp.arange(sides, dtype=config.precision) * (2 * truenp.pi / sides) + truenp.radians(rotation)'
+        assert _n(ast.unparse(vx)) == _n(f'radius * truenp.sin({ang}) + x0') and _n(ast.unparse(vy)) == _n(f'radius * truenp.cos({ang}) + y0')
+        assert has(ast.unparse(fn), 'x0, y0 = center')
         fn2 = get_def(ge, 'regular_polygon')
         assert has(ast.unparse(fn2), 'verts = _generate_vertices(sides, radius, center, rotation)', 'return _generate_mask(verts, x, y)')
         # exact sin / cos at multiples of 30 degrees, in Q(w), w = sqrt 3
